@@ -389,13 +389,8 @@ class CanonAnalysis:
                 self.events.append(("mutref-dirty:%s" % (v.local_name(l) or l), b, v.where(b)))
 
 
-def run(ctx, config="all", scope=None, label=""):
-    rep = Report("R-CANON", "typestate: every function that writes limb storage (assignment through .limbs, &mut "
-                 "borrow of .limbs, Uint struct literal, transmute) re-establishes limbs[LIMBS-1] <= MASK on every "
-                 "path to every return, in every non-aligned configuration; no non-canonical value is handed to "
-                 "another function except a verified sanitiser")
+def _setup(ctx, config):
     prog = ctx.prog(config)
-    table = ctx.table("canon")
     cfgs = []
     for c in ctx.cfgs():
         sm = prog.const_cfg.get("crate::Uint::<BITS, LIMBS>::SHOULD_MASK", {}).get(c)
@@ -424,6 +419,29 @@ def run(ctx, config="all", scope=None, label=""):
             except RuntimeError:
                 memo[k] = False
         return memo[k]
+
+    return prog, cfgs, masks, unsafe_mut, sanitizer
+
+
+def function_events(ctx, config, key):
+    """Non-source R-CANON events of one function over the non-aligned configurations: [(kind, where, cfg)]."""
+    prog, cfgs, masks, unsafe_mut, sanitizer = _setup(ctx, config)
+    out = []
+    for cfg in cfgs:
+        ca = CanonAnalysis(prog, key, cfg, masks[cfg], sanitizer_cb=sanitizer, unsafe_mut=unsafe_mut)
+        for kind, blk, where in ca.events:
+            if kind not in SOURCE_KINDS:
+                out.append((kind, where, cfg))
+    return out
+
+
+def run(ctx, config="all", scope=None, label=""):
+    rep = Report("R-CANON", "typestate: every function that writes limb storage (assignment through .limbs, &mut "
+                 "borrow of .limbs, Uint struct literal, transmute) re-establishes limbs[LIMBS-1] <= MASK on every "
+                 "path to every return, in every non-aligned configuration; no non-canonical value is handed to "
+                 "another function except a verified sanitiser")
+    table = ctx.table("canon")
+    prog, cfgs, masks, unsafe_mut, sanitizer = _setup(ctx, config)
 
     n_fn = n_src = 0
     used_rows = set()
